@@ -3190,6 +3190,10 @@ pub(crate) fn parse_toplevel_items_from_span(
 ) -> (Vec<ToplevelItem>, Vec<ParseError>) {
     let mut diagnostics = vec![];
 
+    // Offsets come from the editor, which may be ahead of the text
+    // it sent.
+    let end_offset = end_offset.min(src.len());
+
     let (mut tokens, lex_errors) = lex_between(vfs_path, src, offset, end_offset);
     for error in lex_errors {
         diagnostics.push(error);
